@@ -27,7 +27,8 @@ META = {
                   "configuration commands only when sent twice), z3/cvc5, symx semantics incl. the SymFlag "
                   "stand-in for IntFlag values (each path re-run concretely with the real IntFlag).",
     "explanation": "symbolic execution of the real generator sequences driven by the model",
-    "bounds": ["resolution 1..32 symbolic (given or reported by the unit)", "input bytes symbolic",
+    "bounds": ["a discovery that gives up with DALISequenceError must have closed the quiescent bracket",
+               "resolution 1..32 symbolic (given or reported by the unit)", "input bytes symbolic",
                "filter enums: push-button/occupancy/light (8 bit), user-defined 12-member (16 bit) and "
                "20-member (24 bit); value symbolic over the enum's width; plain ints 0..255",
                "stale DTR0/1/2 symbolic", "schemes -1..6 symbolic",
